@@ -119,19 +119,22 @@ Proof.
 Qed.
 
 (* ------------------------------------------------------------ reach = desc *)
-Lemma reach_desc_as_is : forall t gone o q, wf_table t = true -> alive_b t o = true ->
-  (reach (okkids as_is t gone o) (o_pid o) q <-> desc t gone (o_pid o) (o_ident o) q).
+(* code before the repair: everything reachable, the caller included *)
+Lemma reach_desc_old : forall fx t gone o q, fx_skip_self fx = false -> wf_table t = true -> alive_b t o = true ->
+  (reach (okkids fx t gone o) (o_pid o) q <-> desc t gone (o_pid o) (o_ident o) q).
 Proof.
-  intros t gone o q W A. split.
+  intros fx t gone o q F W A.
+  assert (NS : forall x, not_self fx o x = true) by (intros x; unfold not_self; rewrite F; reflexivity).
+  split.
   - intros R. induction R as [q Hq | p q R IH Hq].
-    + apply (In_okkids as_is t gone o _ q W A) in Hq. destruct Hq as [e [He [E1 [E2 [_ El]]]]].
+    + apply (In_okkids fx t gone o _ q W A) in Hq. destruct Hq as [e [He [E1 [E2 [_ El]]]]].
       subst q. apply desc_child; assumption.
-    + apply (In_okkids as_is t gone o _ q W A) in Hq. destruct Hq as [e [He [E1 [E2 [_ El]]]]].
+    + apply (In_okkids fx t gone o _ q W A) in Hq. destruct Hq as [e [He [E1 [E2 [_ El]]]]].
       subst q. apply desc_step; try assumption. rewrite E2. exact IH.
   - intros D. induction D as [e He E El | e He El D IH].
-    + apply reach_kid. apply (In_okkids as_is t gone o _ _ W A). exists e. auto.
+    + apply reach_kid. apply (In_okkids fx t gone o _ _ W A). exists e. auto.
     + apply (reach_step _ _ (kp_ppid e)); [exact IH|].
-      apply (In_okkids as_is t gone o _ _ W A). exists e. auto.
+      apply (In_okkids fx t gone o _ _ W A). exists e. auto.
 Qed.
 
 Lemma not_self_skip : forall fx o q, fx_skip_self fx = true -> (not_self fx o q = true <-> q <> o_pid o).
@@ -162,34 +165,24 @@ Qed.
 (* ------------------------------------------------------------ children(recursive=True) *)
 Theorem children_rec_exact : forall t gone o, wf_table t = true -> alive_b t o = true ->
   exists l, children_rec as_is (S (length t)) t gone o = Val (Some l) /\ NoDup l /\
-            forall q, In q l <-> desc t gone (o_pid o) (o_ident o) q.
+            forall q, In q l <-> (desc t gone (o_pid o) (o_ident o) q /\ q <> o_pid o).
 Proof.
   intros t gone o W A. destruct (alive_facts t o A) as [R _].
   destruct (children_walk_terminates as_is t gone o (wf_nodup t W)) as [l [Wk [ND Rc]]].
   exists l. unfold children_rec. rewrite R. cbn [obind]. rewrite Wk. split; [reflexivity|]. split; [exact ND|].
-  intros q. rewrite Rc. apply reach_desc_as_is; assumption.
+  intros q. rewrite Rc. apply reach_desc_skip; [reflexivity | assumption | assumption].
 Qed.
 
-Theorem children_rec_no_self : forall t gone o, wf_table t = true -> alive_b t o = true ->
-  ~ desc t gone (o_pid o) (o_ident o) (o_pid o) ->
-  exists l, children_rec as_is (S (length t)) t gone o = Val (Some l) /\ NoDup l /\
-            forall q, In q l <-> (desc t gone (o_pid o) (o_ident o) q /\ q <> o_pid o).
+(* the code before repair 6afb079: exactly the reachable set -- the caller included when it
+   is its own descendant *)
+Theorem children_rec_old_exact : forall t gone o, wf_table t = true -> alive_b t o = true ->
+  exists l, children_rec before_fixes (S (length t)) t gone o = Val (Some l) /\ NoDup l /\
+            forall q, In q l <-> desc t gone (o_pid o) (o_ident o) q.
 Proof.
-  intros t gone o W A NS. destruct (children_rec_exact t gone o W A) as [l [H [ND R]]].
-  exists l. split; [exact H|]. split; [exact ND|]. intros q. rewrite R. split.
-  - intros D. split; [exact D|]. intros E. subst q. contradiction.
-  - intros [D _]. exact D.
-Qed.
-
-Theorem children_rec_patched : forall fx t gone o, fx_skip_self fx = true ->
-  wf_table t = true -> alive_b t o = true ->
-  exists l, children_rec fx (S (length t)) t gone o = Val (Some l) /\ NoDup l /\
-            forall q, In q l <-> (desc t gone (o_pid o) (o_ident o) q /\ q <> o_pid o).
-Proof.
-  intros fx t gone o F W A. destruct (alive_facts t o A) as [R _].
-  destruct (children_walk_terminates fx t gone o (wf_nodup t W)) as [l [Wk [ND Rc]]].
+  intros t gone o W A. destruct (alive_facts t o A) as [R _].
+  destruct (children_walk_terminates before_fixes t gone o (wf_nodup t W)) as [l [Wk [ND Rc]]].
   exists l. unfold children_rec. rewrite R. cbn [obind]. rewrite Wk. split; [reflexivity|]. split; [exact ND|].
-  intros q. rewrite Rc. apply reach_desc_skip; assumption.
+  intros q. rewrite Rc. apply reach_desc_old; [reflexivity | assumption | assumption].
 Qed.
 
 (* the loop of children(recursive=True) stops within |table|+1 iterations whatever
@@ -206,40 +199,25 @@ Definition cyc2 : table := [ {| kp_pid := 10; kp_ppid := 20; kp_start := 100 |};
                              {| kp_pid := 20; kp_ppid := 10; kp_start := 100 |} ].
 Definition o10 : pobj := {| o_pid := 10; o_ident := 100; o_ctime := None |}.
 
-Theorem children_rec_self_refuted :
+Theorem children_rec_old_refuted :
   exists t o, wf_table t = true /\ alive_b t o = true /\
-              exists l, children_rec as_is (S (length t)) t [] o = Val (Some l) /\ In (o_pid o) l.
+              exists l, children_rec before_fixes (S (length t)) t [] o = Val (Some l) /\ In (o_pid o) l.
 Proof.
   exists cyc2, o10. split; [reflexivity|]. split; [reflexivity|].
   exists [20; 10]. split; [vm_compute; reflexivity | right; left; reflexivity].
 Qed.
 
+Example cyc2_now : children_rec as_is 3 cyc2 [] o10 = Val (Some [20]).
+Proof. vm_compute. reflexivity. Qed.
+
 (* ------------------------------------------------------------ children() *)
 Theorem children_direct_exact : forall t gone o, wf_table t = true -> alive_b t o = true ->
-  own_parent_b t (o_pid o) = false ->
   children_direct as_is t gone o = Val (spec_children t gone (o_pid o) (o_ident o)).
 Proof.
-  intros t gone o W A OP. destruct (alive_facts t o A) as [R [_ [e0 [L0 _]]]].
+  intros t gone o W A. destruct (alive_facts t o A) as [R _].
   unfold children_direct. rewrite R. cbn [obind]. f_equal.
   rewrite (okkids_list as_is t gone o (o_pid o) W A). unfold spec_children. f_equal.
-  apply filter_ext_in. intros e He. unfold not_self. cbn [fx_skip_self as_is andb].
-  destruct (kp_ppid e =? o_pid o) eqn:Ep; [|reflexivity]. cbn [andb].
-  assert (Hne : (kp_pid e =? o_pid o) = false).
-  { apply Z.eqb_neq. intros Epid. unfold own_parent_b in OP. rewrite L0 in OP.
-    apply lookup_In in L0. destruct L0 as [H0 P0].
-    assert (e = e0) by (apply (NoDup_map_inj _ _ kp_pid t); try assumption; [apply wf_nodup; exact W | congruence]).
-    subst e0. rewrite Ep in OP. discriminate. }
-  rewrite Hne. reflexivity.
-Qed.
-
-Theorem children_direct_patched : forall fx t gone o, fx_skip_self fx = true ->
-  wf_table t = true -> alive_b t o = true ->
-  children_direct fx t gone o = Val (spec_children t gone (o_pid o) (o_ident o)).
-Proof.
-  intros fx t gone o F W A. destruct (alive_facts t o A) as [R _].
-  unfold children_direct. rewrite R. cbn [obind]. f_equal.
-  rewrite (okkids_list fx t gone o (o_pid o) W A). unfold spec_children. f_equal.
-  apply filter_ext_in. intros e He. unfold not_self. rewrite F.
+  apply filter_ext_in. intros e He. unfold not_self. cbn [fx_skip_self as_is].
   destruct (kp_ppid e =? o_pid o); reflexivity.
 Qed.
 
@@ -248,9 +226,9 @@ Definition loop7 : table := [ {| kp_pid := 1; kp_ppid := 0; kp_start := 1 |};
                               {| kp_pid := 9; kp_ppid := 7; kp_start := 60 |} ].
 Definition o7 : pobj := {| o_pid := 7; o_ident := 50; o_ctime := None |}.
 
-Theorem children_direct_self_refuted :
+Theorem children_direct_old_refuted :
   exists t o, wf_table t = true /\ alive_b t o = true /\
-              exists l, children_direct as_is t [] o = Val l /\ In (o_pid o) l.
+              exists l, children_direct before_fixes t [] o = Val l /\ In (o_pid o) l.
 Proof.
   exists loop7, o7. split; [reflexivity|]. split; [reflexivity|].
   exists [7; 9]. split; [vm_compute; reflexivity | left; reflexivity].
@@ -264,9 +242,10 @@ Definition tree5 : table := [ {| kp_pid := 1; kp_ppid := 0; kp_start := 1 |};
                               {| kp_pid := 9; kp_ppid := 8; kp_start := 40 |} ].
 Definition o5 : pobj := {| o_pid := 5; o_ident := 30; o_ctime := Some 30 |}.
 
-Example tree5_hyps : wf_table tree5 = true /\ alive_b tree5 o5 = true /\ own_parent_b tree5 5 = false
+Example tree5_hyps : wf_table tree5 = true /\ alive_b tree5 o5 = true
   /\ children_direct as_is tree5 [] o5 = Val [8]
-  /\ children_rec as_is 6 tree5 [] o5 = Val (Some [8; 9]).
+  /\ children_rec as_is 6 tree5 [] o5 = Val (Some [8; 9])
+  /\ children_rec as_is 6 tree5 [8] o5 = Val (Some []).
 Proof. repeat split; vm_compute; reflexivity. Qed.
 
 (* ------------------------------------------------------------ recycled caller *)
